@@ -287,6 +287,15 @@ func (r *Run) checkArms(ld *Loaded, encs []Encoding, comps func(e Encoding) map[
 		bad = append(bad, o)
 	}
 	r.reportFailures(ld, bad, compMask)
+	// the contract of executeOne may be used by callers (Step) only if every
+	// arm, on every component, with frame and safety, was discharged in this run
+	if c := ld.contracts["z80.(*CPU).executeOne"]; c != nil && comps == nil && frame && safety && r.only == "" {
+		c.Discharged = len(bad) == 0 && len(r.engineErr) == 0
+		if c.Discharged {
+			c.Status = "discharged"
+			r.Funcs[c.Key] = "hand-written contract, discharged by 1786-way opcode split"
+		}
+	}
 }
 
 func init() {
